@@ -12,8 +12,9 @@
                VFloat b float64 as its 64-bit IEEE-754 pattern (b < 2^64)
      VList sub l  persistent vector = list of elements in order; sub tells
               whether the Go value is a slice view (Go type vector.subVector,
-              made by $l[i..j]) or a plain vector.vector: Equal, Hash and Cmp
-              do not look at it, CmpTotal's typeOf does
+              made by $l[i..j]) or a plain vector.vector: no function looks
+              at it (before the fix of total-compare-sliced-list CmpTotal's
+              typeOf did; the harness still records it)
      VMap m   persistent hash map = association list in iteration order
               (the trie itself is C07's business)
      VOpaque ty id   values compared by identity and hashed by address
@@ -55,6 +56,8 @@ Definition f_pos_inf : N := f_inf_mag.
 Definition f_neg_inf : N := 2 ^ 63 + f_inf_mag.
 Definition f_is_zero (b : N) : bool := f_mag b =? 0.
 Definition f_is_negzero (b : N) : bool := b =? 2 ^ 63.
+(* the zero of either sign becomes +0.0 (vals.Hash: if v == 0 { v = 0 }) *)
+Definition f_canon (b : N) : N := if f_is_zero b then 0 else b.
 
 (* nearest-even rounding of the rational n/d to binary64 (float64(int64),
    big.Rat.Float64): overflow gives an infinity, tiny values denormals/zero *)
@@ -127,7 +130,7 @@ Fixpoint hash (v : value) : N :=
   | VInt z => hash_int z
   | VBig z => hash_big z
   | VRat q => hash_rat q
-  | VFloat b => hash_u64 b
+  | VFloat b => hash_u64 (f_canon b)
   | VStr s => hash_str s
   | VList _ l => fold_left (fun h x => djb_combine h (hash x)) l djb_init
   | VMap m => fold_left (fun h e => w32 (h + djb [hash (fst e); hash (snd e)])) m 0
@@ -231,15 +234,14 @@ Fixpoint bytes_cmp (a b : bytes) : ordering :=
     match N.compare x y with Lt => OLt | Gt => OGt | Eq => bytes_cmp a' b' end
   end.
 
-(* the type used by CmpTotal's typeOf (the Go type descriptor): all numbers
-   share one, field maps count as maps, but the two Go types behind lists are
-   two types *)
+(* the type used by CmpTotal's typeOf: all numbers share one, field maps count
+   as maps, every list (plain or slice view) is a list *)
 Definition tag (v : value) : N :=
   match v with
   | VNil => 0 | VBool _ => 1
   | VInt _ | VBig _ | VRat _ | VFloat _ => 2
-  | VStr _ => 3 | VList false _ => 4 | VList true _ => 5 | VMap _ => 6
-  | VOpaque ty _ => 7 + ty
+  | VStr _ => 3 | VList _ _ => 4 | VMap _ => 5
+  | VOpaque ty _ => 6 + ty
   end.
 
 Definition lift_total (o : ordering) : ordering := match o with OUn => OEq | o => o end.
@@ -288,14 +290,6 @@ Fixpoint any_float (p : N -> bool) (v : value) : bool :=
   end.
 Definition has_nan : value -> bool := any_float f_is_nan.
 Definition has_negzero : value -> bool := any_float f_is_negzero.
-
-(* contains a list that is a slice view *)
-Fixpoint has_sublist (v : value) : bool :=
-  match v with
-  | VList sub l => sub || existsb has_sublist l
-  | VMap m => existsb (fun e => has_sublist (fst e) || has_sublist (snd e)) m
-  | _ => false
-  end.
 
 (* representation invariant: float patterns are 64-bit, map keys pairwise
    not Equal *)
